@@ -189,7 +189,7 @@ func genFiles(r *rng, tier string) interface{} {
 	if r.intn(12) == 0 {
 		return genFilesHidden(r)
 	}
-	names := []string{"a", "b", "ab", "dir", "sub", "file.txt", "main.go", "x.md", ".hidden", ".cfg", "with space", "it's", "é", "日本", "a.b.c", "-dash", "UPPER", "go.mod", "a.tar.gz", "main_test.go", "Makefile"}
+	names := []string{"a", "b", "ab", "dir", "sub", "file.txt", "main.go", "x.md", ".hidden", ".cfg", "with space", "it's", "é", "日本", "a.b.c", "-dash", "UPPER", "go.mod", "a.tar.gz", "main_test.go", "Makefile", "100% done.txt", "50%off", "a%zz"}
 	in := filesIn{}
 	dirs := []string{""}
 	ndirs := 1 + r.intn(5)
@@ -266,6 +266,13 @@ func genFiles(r *rng, tier string) interface{} {
 	in.DirOnly = r.chance(30)
 	if !in.DirOnly && r.chance(30) {
 		in.Suffixes = pick(r, [][]string{{".go"}, {".txt", ".md"}, {""}, {".c"}, {"go.mod", ".md"}, {".tar.gz"}, {"_test.go"}, {"Makefile", "file"}, {"b"}})
+	}
+	if r.chance(4) {
+		// the file system root as the Chdir target (the process itself runs elsewhere)
+		t := "/"
+		in.Chdir = &t
+		in.Typed = pick(r, []string{"", "t", "tm", "us", "etc/"})
+		return in
 	}
 	if r.chance(15) {
 		t := pick(r, []string{pick(r, dirs), "nonexistent", "$ROOT/" + pick(r, dirs), "."})
